@@ -1,29 +1,15 @@
-import IOptProofs.GklsClass
+import IOptProofs.GklsCert5a
+import IOptProofs.GklsCert5b
 import Mathlib.Tactic.IntervalCases
 /-!
-# Kernel-decided certificates of the 100 regenerated GKLS data sets of dimension 5
-
-`Gkls.Cert 5 k` = well-formedness `WF` + class clauses `ClassOK` + identity (`dim = 5`, `number = k`).
-One lemma per block of ten function numbers (`decide +kernel`: exact integer arithmetic in the kernel).
+# All 100 regenerated GKLS data sets of dimension 5 pass the certificate
 -/
 
 namespace Gkls
-set_option maxRecDepth 100000
-
-theorem cert5_0 : ∀ k ∈ List.range' 1 10, Cert 5 k = true := by decide +kernel
-theorem cert5_1 : ∀ k ∈ List.range' 11 10, Cert 5 k = true := by decide +kernel
-theorem cert5_2 : ∀ k ∈ List.range' 21 10, Cert 5 k = true := by decide +kernel
-theorem cert5_3 : ∀ k ∈ List.range' 31 10, Cert 5 k = true := by decide +kernel
-theorem cert5_4 : ∀ k ∈ List.range' 41 10, Cert 5 k = true := by decide +kernel
-theorem cert5_5 : ∀ k ∈ List.range' 51 10, Cert 5 k = true := by decide +kernel
-theorem cert5_6 : ∀ k ∈ List.range' 61 10, Cert 5 k = true := by decide +kernel
-theorem cert5_7 : ∀ k ∈ List.range' 71 10, Cert 5 k = true := by decide +kernel
-theorem cert5_8 : ∀ k ∈ List.range' 81 10, Cert 5 k = true := by decide +kernel
-theorem cert5_9 : ∀ k ∈ List.range' 91 10, Cert 5 k = true := by decide +kernel
 
 /-- every data set of dimension 5 passes the certificate -/
 theorem cert5 : ∀ k ∈ List.range' 1 100, Cert 5 k = true := by
-  apply range_blocks
+  apply range_blocks5
   intro b hb
   interval_cases b
   · exact cert5_0
@@ -36,5 +22,15 @@ theorem cert5 : ∀ k ∈ List.range' 1 100, Cert 5 k = true := by
   · exact cert5_7
   · exact cert5_8
   · exact cert5_9
+  · exact cert5_10
+  · exact cert5_11
+  · exact cert5_12
+  · exact cert5_13
+  · exact cert5_14
+  · exact cert5_15
+  · exact cert5_16
+  · exact cert5_17
+  · exact cert5_18
+  · exact cert5_19
 
 end Gkls
